@@ -88,7 +88,8 @@ def gen_cfg(seed: int, faulty: typing.Optional[bool] = None) -> dict:
     for rid in range(1, nreq + 1):
         nrows = rng.randint(1, 3)
         req = {'rid': rid, 'app': rng.randrange(napps), 'offset': 0.0 if burst else round(rng.random() * 3, 3),
-               'nrows': nrows, 'vals': [rng.randint(1, 10 ** 6) for _ in range(nrows)], 'fail': None, 'delay': 0.0}
+               'nrows': nrows, 'vals': [rng.randint(1, 10 ** 6) for _ in range(nrows)], 'fail': None, 'delay': 0.0,
+               'swapped': rng.random() < 0.3}
         if faulty and rng.random() < 0.2:
             req['fail'] = rng.choice(FAIL_KINDS)
             if req['fail'] == 'poison':  # the model refuses one feature value: fails inside the worker, mid-pipeline
@@ -138,7 +139,8 @@ def make_request(req: dict) -> layout.Request:
         req['rid'], req['nrows'], req['vals'],
         accept='application/x-nonexistent' if fail == 'bad-accept' else 'application/json',
         content='application/x-nonexistent' if fail == 'bad-content' else 'application/json',
-        drop_column='val' if fail == 'missing-column' else None, garbage=fail == 'garbage')
+        drop_column='val' if fail == 'missing-column' else None, garbage=fail == 'garbage',
+        swapped=req.get('swapped', False))
 
 
 def simulate(cfg: dict, schedule: typing.Optional[list] = None) -> dict:
